@@ -200,6 +200,25 @@ impl<'h> FindMatchesImpl<'h> {
         new_position
     }
 
+    /// Returns a copy of the mutable state of the iterator.
+    #[cfg(feature = "verif")]
+    pub(crate) fn verif_state(&self) -> crate::verif::IterState {
+        crate::verif::IterState {
+            offset: self.offset,
+            last_position: self.last_position,
+            last_char: self.last_char,
+            line_offsets: self.line_offsets.clone(),
+            remaining: self.char_indices.as_str().len(),
+            current_mode: self.scanner_impl.current_mode(),
+            scratch: self
+                .scanner_impl
+                .scanner_modes
+                .iter()
+                .map(|m| crate::verif::dfa_scratch(&m.dfa))
+                .collect(),
+        }
+    }
+
     /// Retrieve the total offset of the char indices iterator in bytes.
     pub(crate) fn offset(&self) -> usize {
         self.last_position + self.offset
